@@ -11,6 +11,7 @@ from btclib.amount import btc_from_sats, sats_from_btc, valid_sats_amount
 from btclib.fee import FeeRate, dust_threshold, fee_from_vsize, package_fee
 from btclib.psbt.psbt import Psbt, prevouts
 from btclib.psbt.psbt_in import PsbtIn
+from btclib.psbt.psbt_out import PsbtOut
 from btclib.script import ScriptPubKey
 from btclib.script.script_pub_key import is_segwit
 from btclib.tx import OutPoint, Tx, TxIn, TxOut
@@ -291,15 +292,18 @@ def _o_funding(w):
     if built is None:
         if not line.startswith("err value"):
             return False, f"build_psbt left through {line}"
-        if total_out > 2_100_000_000_000_000 or "E" in est.seen.values():
+        if total_out > 2_100_000_000_000_000 or "E" in est.seen.values() or "E" in (t[7], t[8]):
             return True, "refused upstream of the decision"
         # a refusal must be one of: nothing paid, inputs short of outputs + owed, change above MAX_MONEY
-        last = est.seen.get(n_out)
-        if n_out == 0 and (change == "None" or last is None):
+        known = lambda tok: tok if tok not in ("NA", "E", "X") else None  # noqa: E731
+        last = est.seen.get(n_out, known(t[8]))
+        first_ = est.seen.get(n_out + 1, known(t[7]))
+        if n_out == 0 and (change == "None" or first_ is None or int(first_) < 0 or
+                           total_in - total_out - fee_from_vsize(int(first_), r) < dust_threshold(unhx(change), dr)):
             return True, "no outputs"
         if last is not None and int(last) >= 0 and total_in - total_out < fee_from_vsize(int(last), r):
             return True, "inputs do not cover"
-        first = est.seen.get(n_out + 1)
+        first = est.seen.get(n_out + 1, known(t[7]))
         if first is not None and int(first) < 0 or last is not None and int(last) < 0:
             return True, "negative injected estimate refused by fee_from_vsize"
         if first is not None and change != "None":
@@ -315,7 +319,8 @@ def _o_funding(w):
     if mode == "real":
         ok = ok and built.fee >= fee_from_vsize(psbt.vsize_estimate(), r)
     else:
-        ok = ok and built.fee >= fee_from_vsize(int(est.seen[len(psbt.outputs)]), r)
+        injected = {n_out + 1: t[7], n_out: t[8]}
+        ok = ok and built.fee >= fee_from_vsize(int(est.seen.get(len(psbt.outputs), injected[len(psbt.outputs)])), r)
     if built.change_index is None:
         ok = ok and len(vout) == n_out and built.change == 0
     else:
@@ -606,6 +611,15 @@ def _o_amount_context(w):
 
 def _o_feerate_context(w):
     k, prec = w["k"], w["prec"]
+    if "x" in w:
+        # the way in: a quote finer than a millisatoshi is refused whatever precision the caller has set
+        with localcontext() as c:
+            c.prec = prec
+            try:
+                got = FeeRate.from_sats_per_vbyte(w["x"]).sats_per_kvbyte
+            except Exception as e:  # noqa: BLE001
+                return (common.err_class(e) == "value" and k is None), f"prec={prec}: from_sats_per_vbyte({w['x']!r}) raised {type(e).__name__}"
+        return got == k, f"prec={prec}: from_sats_per_vbyte({w['x']!r}) = {got}, want {k}"
     with localcontext() as c:
         if prec:
             c.prec = prec
@@ -698,16 +712,22 @@ def _run_fee(ctx):
 
 
 def _learn_estimates(kinds_values, outs, change):
-    """ask the real estimator (through build_psbt's own construction) for both psbt shapes."""
+    """the real estimator's answer for both psbt shapes, asked on psbts of those shapes directly
+    (`Psbt.vsize_estimate`), independently of how build_psbt goes about pricing them."""
     toks = []
+    inputs = lambda: [_fund_input(x[0], int(x[1:]), i) for i, x in enumerate(_csv(kinds_values))]  # noqa: E731
     for with_change in (True, False):
         if with_change and change == "None":
             toks.append("NA")
             continue
-        t = ["funding.build", "real", kinds_values, outs, "0", change if with_change else "None", "0", "NA", "NA"]
-        _, _, est = _funding_call(t)
-        n = len(_csv(outs)) + (1 if with_change else 0)
-        toks.append(est.seen.get(n, "NA"))
+        outputs = [PsbtOut(amount=int(v), script_pub_key=PAY.script) for v in _csv(outs)]
+        if with_change:
+            outputs.append(PsbtOut(amount=0, script_pub_key=unhx(change)))
+        try:
+            psbt = Psbt(2, inputs(), outputs, 0, {}, fallback_lock_time=0, check_validity=False)
+            toks.append(str(psbt.vsize_estimate()))
+        except Exception as e:  # noqa: BLE001
+            toks.append("E" if common.err_class(e) == "value" else "X")
     return toks
 
 
@@ -791,13 +811,20 @@ def _rand_dec(rng, scale):
             coeff, exp = coeff * 10**k, exp - k
         else:
             coeff, exp = coeff * 10**k + rng.choice([0, 0, 1]), exp - k
+    elif r < 0.7:
+        # more digits than any default precision holds: an over-fine tail must be refused, never rounded away
+        n = rng.randrange(29, 45)
+        coeff = rng.randrange(1, 2000) * 10 ** (n - 4) + rng.choice([0, 1, 5 * 10 ** (n - 20), rng.randrange(10 ** (n - 4))])
+        exp = -(n - rng.choice([1, 2, 4, 7]))
     else:
         coeff = rng.getrandbits(rng.choice([1, 4, 10, 30, 51, 60]))
         exp = rng.randrange(-12, 10)
     return Decimal((sign, tuple(int(c) for c in str(coeff)), exp))
 
 
-SPELLINGS = ["9999999999999999.999", "1e16", "0.9999e16", "1e15", "10000000000000000", "1e-3", "1e-4", "0.0010",
+SPELLINGS = ["1.00000000000000000000000000001", "1.0000000000000000000000000000000000", "1.5000000000000000000000000000001",
+             "0.00100000000000000000000000000001", "20999999.999999990000000000000000000001",
+             "9999999999999999.999", "1e16", "0.9999e16", "1e15", "10000000000000000", "1e-3", "1e-4", "0.0010",
              "-1e20", "-0e999999999", "0",  "-0", "0.0", "1", "1.5", "0.00000001", "0.000000001", "0.123456789", "1.000000000", "21000000",
              "21000000.00000001", "20999999.99999999", "2.1e7", "2.1E+7", "2.10000001e7", "1e-8", "1e-9", "-1e-8",
              " 1.5 ", "1_0.5", "1,5", "abc", "", "NaN", "Infinity", "-Infinity", "0e-50", "0e50", "1e-400", "1e400",
@@ -848,6 +875,9 @@ def _run_amount(ctx):
             ctx.check("amount.context", {"s": v, "prec": prec}, key="amount.decimal-context")
     for k, prec in ((1234567891, 6), (1500, 6), (10**30 + 1, 0)):
         ctx.check("feerate.context", {"k": k, "prec": prec}, key="feerate.decimal-context")
+    for x, k in (("1.2345678", None), ("1234.5678", None), ("1234567.891", 1234567891), ("0.001", 1), ("1.0004", None)):
+        for prec in (3, 6):
+            ctx.check("feerate.context", {"x": x, "k": k, "prec": prec}, key="feerate.decimal-context")
 
 
 def _run_sizes(ctx):
